@@ -18,6 +18,7 @@ def main(argv=None):
     a = ap.parse_args(argv)
     mod = importlib.import_module('harness.%s' % a.prop.lower())
     if a.replay:
+        os.environ['VERIF_REPLAY'] = '1'      # a replay never deletes replays nor rewrites evidence
         obj = json.load(open(a.replay))
         rc = mod.replay(obj)
         sys.exit(rc)
